@@ -14,6 +14,7 @@ construction.  The model follows the Rust case by case, including its oddities:
 Floats are kept as their decimal text (validated with the grammar of Rust's `f64::from_str`); no
 theorem mentions their value.
 -/
+import SteelVerif.C12.GenUnicode
 namespace SteelVerif.C12
 
 abbrev Text := List Char
@@ -127,12 +128,41 @@ def parseDigits (radix : Nat) : Nat → Text → Option Nat
     | some d => if d < radix then parseDigits radix (acc * radix + d) cs else none
     | none => none
 
-/-- `isize::from_str_radix` falling back to `BigInt::from_str_radix`: `[+-]? digit+`. -/
-def parseIntRadix (radix : Nat) : Text → Option Int
+/-- the strict integer syntax `[+-]? digit+` (what `isize::from_str_radix` accepts, at any magnitude). -/
+def parseIntStrict (radix : Nat) : Text → Option Int
   | [] => none
   | '+' :: cs => if cs.isEmpty then none else (parseDigits radix 0 cs).map Int.ofNat
   | '-' :: cs => if cs.isEmpty then none else (parseDigits radix 0 cs).map (fun n => - Int.ofNat n)
   | cs => (parseDigits radix 0 cs).map Int.ofNat
+
+/-- `BigUint::from_str_radix` of num-bigint: one leading `+` is dropped (unless another `+` follows), the text
+    must not be empty nor start with `_`, and EVERY further `_` is skipped (digit separators). -/
+def dropPlus : Text → Text
+  | '+' :: t => if t.head? == some '+' then '+' :: t else t
+  | s => s
+
+def bigUintRadix (radix : Nat) (s : Text) : Option Nat :=
+  if (dropPlus s).isEmpty || (dropPlus s).head? == some '_' then none
+  else parseDigits radix 0 ((dropPlus s).filter (· != '_'))
+
+/-- `BigInt::from_str_radix`: a leading `-` (not followed by `+`), then `bigUintRadix`. -/
+def bigIntRadix (radix : Nat) : Text → Option Int
+  | '-' :: t => if t.head? == some '+' then none else (bigUintRadix radix t).map (fun n => - Int.ofNat n)
+  | s => (bigUintRadix radix s).map Int.ofNat
+
+/-- `IntLiteral::from_str_radix`: `isize::from_str_radix(..).or_else(|_| BigInt::from_str_radix(..))`.  The
+    fallback is num-bigint's parser, which accepts `_` between digits: `1_0` is 10, `1_000/3` is 1000/3 for
+    `string->number` (the READER never gets here with a `_`: `read_number` stops at it, see
+    `reader_number_slice_no_underscore`).  Whether the tree has this leniency is `Gen.intUnderscoreFallback`,
+    regenerated from the real parser on every run (it turns `false` when `_` is rejected before the fallback). -/
+def parseIntRadix (radix : Nat) (s : Text) : Option Int :=
+  match parseIntStrict radix s with
+  | some i => some i
+  | none => if Gen.intUnderscoreFallback then bigIntRadix radix s else none
+
+theorem parseIntRadix_of_strict {radix : Nat} {s : Text} {i : Int} (h : parseIntStrict radix s = some i) :
+    parseIntRadix radix s = some i := by
+  unfold parseIntRadix; rw [h]
 
 /-- `u32::from_str_radix(_, 16)`: `+? hexdigit+`, value below 2^32. -/
 def parseHexU32 (cs : Text) : Option Nat :=
